@@ -139,11 +139,11 @@ func body(sc scenario) func() {
 			failf("monitor", "%s", v[0])
 		}
 		// every acknowledged upload still held live is committed
-		final := s.Restart(g)
 		for _, a := range acks {
 			if !s.Held(a.Obj.Digest) {
 				continue // evicted by rotation
 			}
+			final := s.Restart(g) // fresh restart per object: a read may refresh and rotate others out
 			ok, err := final.Served(a.Obj.Digest, a.Obj.Content)
 			if err != nil || !ok {
 				failf("acknowledged-upload-not-committed", "upload %s was acknowledged at %v and is still held by the live store, but a store restarted from the media after quiescence does not serve it (%v)", a.Obj.Name, a.At.Sub(time.Unix(1_000_000_000, 0)), err)
